@@ -66,7 +66,7 @@ def py_rates(A, ls1, li1, ls2, li2, n, dt):
 
 
 def single_input(o):
-    return {"setup": o["setup"], "n": o["n"], "axes_mode": o["mode"], "signal_axis_rad_per_s": [fl(h) for h in o["ls"]],
+    return {"setup": o["setup"], "config_json (SPDCConfig; {} = SPDCConfig::default())": o.get("config"), "n": o["n"], "axes_mode": o["mode"], "signal_axis_rad_per_s": [fl(h) for h in o["ls"]],
             "idler_axis_rad_per_s": [fl(h) for h in o["li"]], "taus_s": [fl(t) for t in o["taus"]], "integrator": "Simpson{divs:50}",
             "call": "spdc.hom_two_source_rate_series(taus, FrequencySpace::new(signal_axis, idler_axis), Integrator::default()) / "
                     "spdc.hom_two_source_visibilities(range, Integrator::default())"}
@@ -99,8 +99,10 @@ def oracle(ctx, obs, max_py_cells):
                 for k in NAMES:
                     r = ser[k][j]
                     if not (fin(r) and -SLACK <= r <= 1 + SLACK):
-                        ctx.violation("S5", f"two-source rate {k} = {r!r} outside [0,1] at tau={tau!r} ({o['setup']}, n={n}, axes mode {o['mode']})",
-                                      {"kind": "range", "channel": k, "setup": o["setup"]}, dict(rep, tau=tau, channel=k, rate=r))
+                        axes = "equal" if o["ls"] == o["li"] else "unequal"
+                        ctx.violation("S5", f"two-source rate {k} = {r!r} outside [0,1] at tau={tau!r} ({o['setup']}, n={n}, {axes} signal/idler axes)",
+                                      {"kind": "range", "channel": k, "axes": axes}, dict(rep, tau=tau, channel=k, rate=r, expected="0 <= rate <= 1",
+                                                                                           finding="coq/Findings/C10_si_range.v" if (k == "si" and axes == "unequal") else None))
             # clause: V_ss = V_ii = sum s^4 / (sum s^2)^2 at zero delay (1e-9)
             if o.get("sv2") is not None:
                 P = fl(o["sv4"]) / fl(o["sv2"]) ** 2
@@ -258,8 +260,12 @@ def run(ctx):
     proved = (not msgs) and prove(ctx, "C10")
     quick = ctx.tier == "quick"
     ncases, max_side, npairs = (28, 10, 12) if quick else (96, 24, 36)
-    obs = run_harness(ctx, binp, ["c10", ctx.seed, ncases, max_side, npairs])
+    # corpus of inputs that violated the property text before (the witness of Findings/C10_si_range.v), then the generated cases
+    obs = run_harness(ctx, binp, ["c10", "corpus"]) + run_harness(ctx, binp, ["c10", ctx.seed, ncases, max_side, npairs])
     oracle(ctx, obs, 10**4 if quick else 24**4)
+    okf, ffails, _ = coq_build(ctx, ["Findings/C10_si_range.vo"])
+    if not okf:
+        ctx.note("finding C10_si_range: the refuted lemma no longer compiles (not an obligation of the property)")
     for o in [x for x in obs if x["kind"] == "single"][:2]:
         if "panic" not in o["series"] and "panic" not in o["vis"]:
             ctx.sample({"setup": o["setup"], "n": o["n"], "axes_mode": o["mode"], "v_ss": fl(o["vis"]["ss"][1]), "v_ii": fl(o["vis"]["ii"][1]),
@@ -284,7 +290,7 @@ def run(ctx):
         "both = sum s^4/(sum s^2)^2 over singular values of the sampled JSA matrix": "proved for any unitary factorisation (C10_singular_values, "
             "C10_setup_visibilities); nalgebra's complex SVD accuracy validated per input (1e-9)",
         "rates ss, ii in [0,1] at every delay": "proved (C10_range_partial, C10_range_general)",
-        "rate si in [0,1] at every delay": "proved_partial: proved on identical signal/idler axes (C10_range_same_axes) and under a norm condition on the two "
+        "rate si in [0,1] at every delay": "REFUTED on unequal signal/idler axes (Findings/C10_si_range.v, replayed on the Rust code by the corpus case); proved_partial: proved on identical signal/idler axes (C10_range_same_axes) and under a norm condition on the two "
             "auxiliary grids; validated_only on unequal axes",
         "implementation = model (eight grids, index permutations, phases, normalisation)": "validated: exact Q twin at zero delay (1e-9), interval goals on 2x2 "
             "grids at non-zero delay, binary64 recomputation for every grid incl. two different sources"}
